@@ -91,6 +91,15 @@ func c10() {
 			strace = true
 			run.Count("children_seeing_a_faked_kernel_release", 1)
 		}
+		if i%24 == 4 && variant == "" && !strace {
+			// /proc is not mounted in the child's mount namespace: state snapshots are empty, the probes are judged as ever
+			cc.NoProc = true
+			run.Count("children_without_proc", 1)
+		}
+		if i%24 == 16 && variant == "" && !strace {
+			cc.PidNamespace = true // a container's init: thread ids start at 1
+			run.Count("children_as_process_1_of_a_pid_namespace", 1)
+		}
 		transient := i%12 == 10 && variant == ""
 		if transient {
 			// the first seccomp(2) call of every thread is interrupted (EINTR from the injector), later calls reach the kernel:
